@@ -63,6 +63,21 @@ Theorem C13_v6_rapid_commit : forall sol_xid req_xid ph1 ph2 m,
   exists w, In w ph1 /\ reaches_call6 sol_xid w = Some m.
 Proof. exact rapid_commit_reply_accepted. Qed.
 Print Assumptions C13_v6_rapid_commit.
+(** REQUEST / REPLY are paired by the REQUEST's own transaction id: the outcome is the first datagram of the
+    second phase that decodes as a message with that id; datagrams with another id (a late or duplicated answer
+    to the SOLICIT, for instance), relay messages and undecodable datagrams before it are ignored *)
+Theorem C13_v6_pairing : forall sol_xid req_xid ph1 ph2 req r,
+  rapid_solicit sol_xid req_xid ph1 ph2 = V6Requested req r ->
+  exists pre w post, ph2 = pre ++ w :: post /\ reaches_call6 req_xid w = Some r /\
+                     Forall (fun x => reaches_call6 req_xid x = None) pre.
+Proof. exact request_paired_by_xid. Qed.
+Print Assumptions C13_v6_pairing.
+
+Theorem C13_v6_other_transaction_ignored : forall req_xid w,
+  (forall t os, dec_message w <> Ok (Msg t req_xid os)) -> reaches_call6 req_xid w = None.
+Proof. exact other_xid_ignored. Qed.
+Print Assumptions C13_v6_other_transaction_ignored.
+
 (** ... and the REQUEST built from an ADVERTISE carries the advertised client id, server id and IA_NA *)
 Theorem C13_v6_request_fields : forall xid adv req, new_request_from_advertise xid adv = Ok req ->
   exists axid os cid sid iana rest, adv = Msg 2 axid os /\
